@@ -849,6 +849,10 @@ func runC09_12(c *core.Ctx) {
 			au := &flow.Auto{Start: sIdle}
 			au.Node = func(b *flow.Block, i int, n ast.Node, st int) int {
 				phase, added := st&7, st>>3
+				if (n == ast.Node(s.as) || isSite(n)) && phase == sFailed {
+					// states only ever grow while solving: a state seen here is reachable
+					bads = append(bads, bad{n.Pos(), "another transfer is started on the path where " + s.err.Name() + " of this one is established non-nil: the failure does not end the operation (a reader or writer that keeps failing keeps the loop going, and its error is overwritten by the next call)"})
+				}
 				if n == ast.Node(s.as) {
 					return sCalled
 				}
